@@ -560,6 +560,11 @@ func c17FullStackMode(router, tcp bool) func() {
 			{6, 0x10, 0x04, 0x20, 0, 10, 4, 7, 0, 0},                                           // tunnelling request without a cEMI body
 			{6, 0x10, 0x05, 0x30, 0, 17, 0x29, 3, 1, 2, 3, 0xBC, 0xE0, 0x11, 0x01, 0x0A, 0x03}, // additional info + truncated L_Data
 		}
+		if !router {
+			// a well-formed request of a channel the client does not own (the gateway serves another
+			// connection on the same stream / towards the same port): not accepted, not handed over
+			junk = append(junk, pack(&knxnet.TunnelReq{Channel: 9, SeqNumber: 0, Payload: MsgTagged(66)}))
+		}
 		for i := 0; i < n; i++ {
 			if k := mc.Choose(len(junk)+1, mc.Free); k > 0 {
 				ep.Inject(junk[k-1], nil)
